@@ -649,10 +649,21 @@ func (e *Exec) RunEntry(init map[[2]uint32][]uint32) map[[2]uint32]*Tree {
 				continue
 			}
 			store := e.zero(pt.words[2])
-			key := [2]uint32{set[in.Words[1]], bind[in.Words[1]]}
-			if words, ok := init[key]; ok {
-				Fill(store, words, new(int))
-				res[key] = store
+			if len(in.Words) > 3 { // initializer
+				c, ok := e.consts[in.Words[3]]
+				zz.Assert(ok, "OpVariable initializer is not a constant defined in the module")
+				if ok {
+					store = c.clone()
+				}
+			}
+			_, hasSet := set[in.Words[1]]
+			_, hasBind := bind[in.Words[1]]
+			if hasSet && hasBind { // a resource variable
+				key := [2]uint32{set[in.Words[1]], bind[in.Words[1]]}
+				if words, ok := init[key]; ok {
+					Fill(store, words, new(int))
+					res[key] = store
+				}
 			}
 			e.globals[in.Words[1]] = store
 		}
